@@ -116,11 +116,35 @@ COMMANDS = [
     ('untrack', ['file', 'untrack', 'c.txt'], ['c.txt']),
     ('recheck-force', ['file', 'recheck', '--no-parallel', '--force', 'a.txt'], ['a.txt']),
     ('bring', None, ['d/b.bin']),      # prepared below: cache object removed first
+    ('bring-xdev', None, ['d/b.bin']),  # the same with TMPDIR on another file system
     ('pipeline-step-new', ['pipeline', 'step', 'new', '--step-name', 's1', '--command', 'echo hi'], []),
 ]
 
 
+QUICK = ('track-new', 'carry-in', 'recheck-method', 'track-hardlink', 'untrack-unshared', 'recheck-copy', 'bring-xdev')
+
+
+def other_fs_tmp():
+    """a fresh directory on a file system other than the scratch area's (for TMPDIR), or None"""
+    import tempfile
+    for d in ('/dev/shm', '/run', '/var/tmp'):
+        try:
+            if os.path.isdir(d) and os.access(d, os.W_OK) and os.stat(d).st_dev != os.stat(tempfile.gettempdir()).st_dev:
+                return tempfile.mkdtemp(dir=d, prefix='xvc-c07-')
+        except OSError:
+            pass
+    return None
+
+
 def prepare(sb, name):
+    if name == 'bring-xdev':
+        # the storage's temporary directory on ANOTHER file system: fs::rename into the cache fails with EXDEV and
+        # move_to_cache takes its copy path (hidden temporary name next to the cache path, then rename)
+        d = other_fs_tmp()
+        if d is None:
+            return ['file', 'list']
+        sb.env = dict(sb.env, TMPDIR=d); sb.xdev_tmp = d
+        name = 'bring'
     if name == 'bring':
         o = Obs(sb)
         a = rc.rec_addr(o.recs['d/b.bin'], 'd/b.bin')
@@ -214,10 +238,12 @@ def run_one(chk, xvc, base, cname, argv, targets, k, trace_ref, table):
             fails.append((f'{where}: ' + msg, dict(sig, at=f'{at[0]}:{at[1]}')))
     # (e) re-run + recheck converges to the uninterrupted twin
     if r1 == 0:
-        r2, _, e2 = sb.x(*(['--skip-git'] + (arg2 if cname != 'bring' else arg2)))
+        r2, _, e2 = sb.x(*(['--skip-git'] + arg2))
         r3, _, e3 = sb.x('--skip-git', 'file', 'recheck')
         got = canon(Obs(sb), table)
         fails.append(('__state__', got, where, at, (r2, e2[-200:]), phase))
+    if getattr(sb, 'xdev_tmp', None):
+        shutil.rmtree(sb.xdev_tmp, ignore_errors=True)
         # (f) the re-run and the recheck destroy nothing either: a partial file left by the killed run must not be
         # taken for the user's file while the only complete copy is deleted
         inv2, _ = inventory(sb)
@@ -242,7 +268,7 @@ def run(chk):
                         'the local storage used by `bring` is not modified by the crash (read side only)']
     base = setup_repo(chk, xvc, 'base')
     table = Table()
-    names = [c for c in COMMANDS][:6] if quick else COMMANDS
+    names = [c for c in COMMANDS if c[0] in QUICK] if quick else COMMANDS
     total = 0
     for cname, argv, targets in names:
         # reference run: trace + uninterrupted twin
@@ -265,6 +291,8 @@ def run(chk):
         per_call = {}
         for (pid, sc), cnt in raw.items():
             per_call[sc] = max(per_call.get(sc, 0), cnt)
+        if getattr(ref, 'xdev_tmp', None):
+            shutil.rmtree(ref.xdev_tmp, ignore_errors=True)
         ref.cleanup()
         ks = [(sc, j) for sc in sorted(per_call) for j in range(1, per_call[sc] + 1)]
         n = len(ks)
